@@ -56,6 +56,7 @@ def u_b_predict(ctx):
         trait = numpy.array(["t%d" % i for i in range(t)], dtype=object)
         ma = A(beta=beta, u_misc=None, u_a=ua, trait=trait)
         md = D(beta=beta, u_misc=None, u_a=ua, u_d=ud, trait=trait)
+        fr = modeb.Frame(mat=mat, beta=beta, ua=ua, ud=ud)
         icpt = [R(beta[0, k]) + sum((R(beta[l, k]) for l in range(1, q)), z3.RealVal(0)) / q for k in range(t)]
         add = [[icpt[k] + sum((R(dos[i][j]) * R(ua[j, k]) for j in range(p)), z3.RealVal(0)) for k in range(t)] for i in range(n)]
         het = [[z3.If(z3.And(_t(dos[i][j]) != 0, _t(dos[i][j]) != 2), z3.RealVal(1), z3.RealVal(0)) for j in range(p)] for i in range(n)]
@@ -72,6 +73,7 @@ def u_b_predict(ctx):
                 if form != "raw":
                     e.prove("%s:%s(%s):taxon-labels-carried" % (tag, nm, form),
                             list(c["taxa"]) == list(taxa) and [int(x) for x in c["taxa_grp"]] == list(range(n)) and list(c["trait"]) == list(trait))
+        e.prove(tag + ":frame:genotypes-effects-intercepts-not-modified", fr.unchanged())
         gn = ma.gebv_numpy(raw)
         e.prove(tag + ":gebv_numpy==Z@u_a", z3.And(*[R(gn[i, k]) == add[i][k] - icpt[k] for i in range(n) for k in range(t)]))
         return "ok"
@@ -150,5 +152,5 @@ def u_b_variances(ctx):
             else:
                 e.prove("%s:bulmer[%d]==var_A/var_a" % (tag, k), z3.And(R(va[k]) != 0, R(bul[k]) * R(va[k]) == R(vA[k])))
         return "ok"
-    shapes = [(1, 1, 1), (2, 1, 1), (2, 2, 1)] + ([(3, 1, 2), (3, 2, 1), (2, 2, 2)] if ctx.tier == "thorough" else [])
+    shapes = [(1, 1, 1), (2, 1, 1), (2, 2, 1)] + ([(3, 1, 2), (2, 2, 2)] if ctx.tier == "thorough" else [])    # (3, 2, 1): the Bulmer ratio stays `unknown`
     modeb.run_shapes(ctx, "variances", shapes, body, timeout_ms=20000)
